@@ -885,6 +885,9 @@ func RunIndexDDLFaults(c *core.Ctx) {
 	s := NewS(c, h)
 	s.r = r
 	n := gen.Pick(r, []int{2, 6, 15, 40})
+	if c.Case%12 == 7 {
+		n = 10500 // more documents than a batched index build or drop is likely to handle in one go
+	}
 	docs := make([]map[string]any, n)
 	for i := range docs {
 		docs[i] = map[string]any{"_id": fixedID(i + 1), "x": int64(i % 5), "y": int64(100 - i)}
@@ -929,6 +932,9 @@ func RunIndexDDLFaults(c *core.Ctx) {
 		}
 	}
 	k := 1 + r.Intn(faultable+1)
+	if n > 1000 && r.P(70) {
+		k = faultable + 1 - r.Intn(3000) // late: whatever the operation does in stages, most stages are behind it
+	}
 	sticky := r.Bool()
 	h.MS.BeginOp(false)
 	h.MS.SetFault(mon.Fault{Nth: k, Sticky: sticky})
